@@ -9,9 +9,10 @@
 (* Abstraction: the state of chain c after t transitions of a sampler seeded      *)
 (* with sigma is the token <<kind, sigma, c, t>> -- by Seeds!Reproducible it is a *)
 (* function of exactly these -- except for NUTS, whose every run() call draws a   *)
-(* fresh momentum in init_chain, re-derives mu and re-opens the adaptation window *)
-(* n_discard, so that the token also carries, for every earlier call, how many    *)
-(* transitions it made and its n_discard, and the n_discard of the current call   *)
+(* fresh momentum in init_chain and re-opens the adaptation window n_discard      *)
+(* (a warm-up reaching beyond the transitions made so far is resumed), so that   *)
+(* the token also carries, for every earlier call, how many transitions it made  *)
+(* and its n_discard, and the n_discard of the current call   *)
 (* (NUTS does not promise that two runs equal one longer run; MH, Gibbs and HMC   *)
 (* do).  Neither n_collect nor the progress flag of the current call enters the   *)
 (* token: they only decide which states are returned.                             *)
